@@ -16,7 +16,7 @@
      C13_ticks                  per tick, with 'tick / 'static persistence per side, the output is
                                 the join of everything that arrived within the persisted scope *)
 From Coq Require Import Permutation.
-From HV Require Import Pull.Model Pull.PCore Pull.ModelJoin Pull.PJoin Pull.PJoin2 Pull.CorrJoin Pull.PJoin3 Pull.PSound.
+From HV Require Import Pull.Model Pull.PCore Pull.ModelJoin Pull.PJoin Pull.PJoin2 Pull.CorrJoin Pull.PJoin3 Pull.PSound Pull.PJoin4.
 Open Scope N_scope.
 
 (* every poll of SymmetricHashJoin preserves the invariant, whatever the scripts answer *)
@@ -129,6 +129,19 @@ Theorem C13_checker_sound : forall c o, C13_holds_b c o = true ->
   end.
 Proof. exact C13_holds_b_sound. Qed.
 Print Assumptions C13_checker_sound.
+
+(* and complete: whatever the model computes (that reaches the end, over fused scripts) passes
+   the executable form, so the property bit only fires on an output that differs from the model *)
+Theorem C13_checker_complete : forall c n,
+  match c with
+  | JInc s pre1 pre2 l1 l2 =>
+      fused_b l1 = true -> fused_b l2 = true ->
+      jemitted (polls (shj_m s) n (jinit s pre1 pre2 l1 l2)) <> None ->
+      C13_holds_b c (model_jobs c n) = true
+  | JTicks _ _ _ _ => C13_holds_b c (model_jobs c n) = true
+  end.
+Proof. exact C13_model_holds. Qed.
+Print Assumptions C13_checker_complete.
 
 (* non-vacuity: duplicates on both sides, a Pend on each side; set vs multiset *)
 Example C13_ex_set :
